@@ -615,3 +615,5 @@ PROPS["C12"]["rule"] += (" Half of the workloads run with schedule noise: the lo
                          "are released) yields or sleeps for 40-250 us, pseudo-randomly from the case.")
 for _p in ("C11", "C17"):
     PROPS[_p]["rule"] += " Half of the concurrent cases run with schedule noise (yields and 30-250 us sleeps at lock boundaries and at the end of timed sections; DESIGN.md A.0, Hooks)."
+PROPS["C16"]["rule"] += (" Both parts also generate cron expressions without a future occurrence (which must never fire; refusing them is "
+                         "fine) and, for crolt, absolute RFC3339 due times.")
